@@ -6,6 +6,7 @@ import JubakoModel.Model.Container
 import JubakoModel.Lemmas.CrcWindow
 import JubakoModel.Lemmas.Mask
 import JubakoModel.Lemmas.DamageFile
+import JubakoModel.Model.DirLayout
 
 namespace Jubako
 
@@ -159,5 +160,61 @@ example (pos : Nat) (b : UInt8) :
     ∃ k, dirGetEntry ((dirPackWrite DirFileExample.hash DirFileExample.vendor DirFileExample.uuid
         DirFileExample.freeData DirFileExample.input).set pos b) 0 1 = .err k :=
   c05_file_directory_single_byte _ _ _ _ _ DirFileExample.input_wf DirFileExample.limits pos b 1 (by decide)
+
+/-! ### Lookup of an index by name over damaged index tails -/
+
+/-- **An index never disappears silently** (`DirectoryPack::get_index_from_name`, the scan the reader
+    model runs, `lookupIndexByName`): if the lookup answers "no such index", then every index tail of
+    the pack was read without error and none of them carries the name.  Equivalently: when the tail of
+    the named index, or any tail listed before it, is damaged (does not read), the answer is that error —
+    never "no such index", never another index. -/
+theorem c05_index_lookup_none (ios : List (Outcome IndexInfo)) (name : Bytes)
+    (h : lookupIndexByName ios name = .ok none) :
+    ∀ r ∈ ios, ∃ i, r = .ok i ∧ i.name ≠ name := by
+  induction ios with
+  | nil => intro r hr; cases hr
+  | cons x rest ih =>
+    cases x with
+    | ok i =>
+      simp only [lookupIndexByName] at h
+      by_cases hn : (i.name == name) = true
+      · simp [hn] at h
+      · simp only [hn] at h
+        intro r hr
+        rcases List.mem_cons.mp hr with rfl | hr
+        · exact ⟨i, rfl, by simpa using hn⟩
+        · exact ih h r hr
+    | err k => simp [lookupIndexByName] at h
+    | panic s => simp [lookupIndexByName] at h
+    | hang => simp [lookupIndexByName] at h
+    | fault => simp [lookupIndexByName] at h
+
+/-- … and what it finds is the first index carrying the name, all tails before it having been read. -/
+theorem c05_index_lookup_some (ios : List (Outcome IndexInfo)) (name : Bytes) (i : IndexInfo)
+    (h : lookupIndexByName ios name = .ok (some i)) :
+    i.name = name ∧ .ok i ∈ ios := by
+  induction ios with
+  | nil => simp [lookupIndexByName] at h
+  | cons x rest ih =>
+    cases x with
+    | ok j =>
+      simp only [lookupIndexByName] at h
+      by_cases hn : (j.name == name) = true
+      · simp only [hn, if_true] at h
+        have : j = i := by simpa using h
+        subst this
+        exact ⟨by simpa using hn, List.mem_cons_self⟩
+      · simp only [hn] at h
+        obtain ⟨a, b⟩ := ih h
+        exact ⟨a, List.mem_cons_of_mem _ b⟩
+    | err k => simp [lookupIndexByName] at h
+    | panic s => simp [lookupIndexByName] at h
+    | hang => simp [lookupIndexByName] at h
+    | fault => simp [lookupIndexByName] at h
+
+/-- non-vacuity: with the tail of the first of two indexes damaged, looking either name up is an error -/
+example :
+    lookupIndexByName [.err .format, .ok ⟨0, 1, 0, [0, 0, 0, 0], 0, [97]⟩] [109] = .err .format ∧
+    lookupIndexByName [.err .format, .ok ⟨0, 1, 0, [0, 0, 0, 0], 0, [97]⟩] [97] = .err .format := ⟨rfl, rfl⟩
 
 end Jubako
